@@ -108,6 +108,63 @@ def _run_task(task):
         return jname, lo, hi, None, "HARNESS: " + traceback.format_exc()
 
 
+HISTORY_WINDOW = 60
+
+
+def history_plan(jobs):
+    """Deterministic 'reverse pass': the first HISTORY_WINDOW indices of every space, spaces in reverse order, indices in
+    reverse order, executed one by one in ONE fresh process. Larger shapes therefore run before smaller ones, which exposes
+    state that leaks from one call into the next (caches or scratch buffers at module scope) independently of how the
+    pool happened to schedule the chunks."""
+    plan = []
+    for j in reversed(jobs):
+        w = HISTORY_WINDOW if not j.chunk else 0  # spaces with an explicit chunk size have expensive cases: left out
+        for i in reversed(range(min(j.size, w))):
+            plan.append((j.name, i))
+    return plan
+
+
+def _history_pass(jobs, upto, conn):
+    try:
+        setup_paths()
+        from vf import guard
+
+        byname = {j.name: j for j in jobs}
+        r = new_result()
+        pos = 0
+        for name, i in history_plan(jobs)[: upto if upto is not None else None]:
+            j = byname[name]
+            guard.HANGS[0] = 0
+            x = j.func(j.params, i, i + 1)
+            pos += 1
+            r["n"] += x["n"]
+            r["outcomes"].update(x["outcomes"])
+            for v in x["violations"]:
+                v["_chunk"] = ["__history__", 0, pos]
+                v.setdefault("space", name)
+                r["violations"].append(v)
+            if len(r["violations"]) >= 40 or x["counters"].get("hangs", 0) >= 2:
+                r["capped"] = True
+                break
+        conn.send((r, None))
+    except BaseException:  # noqa: BLE001
+        conn.send((None, traceback.format_exc()))
+
+
+def run_history_pass(jobs, upto=None, timeout=1200):
+    ctx = mp.get_context("fork")
+    a, b = ctx.Pipe(duplex=False)
+    p = ctx.Process(target=_history_pass, args=(jobs, upto, b))
+    p.start()
+    out = (None, "history pass timed out")
+    if a.poll(timeout):
+        out = a.recv()
+    p.join(5)
+    if p.is_alive():
+        p.terminate()
+    return out
+
+
 def _init_worker():
     setup_paths()
     os.environ.setdefault("PYTHONHASHSEED", "0")
@@ -233,6 +290,11 @@ def run_check(pid: str, tier: str, seed: int, procs: int, only: str | None = Non
         if pool is not None:
             pool.terminate()
             pool.join()
+    hist = None
+    if not only and not _ABORT.value and os.environ.get("VERIF_NO_HISTORY_PASS") != "1":
+        hist, herr = run_history_pass(jobs)
+        if herr:
+            harness_errors.append(("__history__", 0, 0, "HARNESS: " + herr))
     wall = time.time() - t0
 
     if harness_errors:
@@ -246,6 +308,8 @@ def run_check(pid: str, tier: str, seed: int, procs: int, only: str | None = Non
         for v in agg[j.name]["violations"]:
             v.setdefault("space", j.name)
             all_v.append(v)
+    if hist:
+        all_v.extend(hist["violations"])
     # de-duplicate by key, keep enumeration order (smallest first within a space)
     seen = set()
     uniq = []
@@ -302,6 +366,7 @@ def run_check(pid: str, tier: str, seed: int, procs: int, only: str | None = Non
         "outcomes": dict(outcomes),
         "counters": dict(counters),
         "known_findings_matched": dict(known_hits),
+        "history_pass": {"executions": hist["n"] if hist else 0, "window_per_space": HISTORY_WINDOW, "capped": bool(hist and hist["capped"]), "what": "first indices of every space re-run in reverse space/index order in one fresh process (call-history independence)"},
         "vacuous": len(outcomes) <= 1,
     }
     if mod.LEVEL == "model_checking":
@@ -361,7 +426,13 @@ def run_replay(pid: str, path: str) -> int:
     if not a and v.get("_chunk"):
         # the case passes on its own: re-run the chunk it was found in (same call history) in this fresh process
         jname, lo, hi = v["_chunk"]
-        for j in mod.jobs(v.get("_tier", "quick"), int(v.get("_seed", 0))):
+        if jname == "__history__":
+            r, herr = run_history_pass(mod.jobs(v.get("_tier", "quick"), int(v.get("_seed", 0))), upto=hi)
+            for x in (r or {"violations": []})["violations"]:
+                if vkey(x) == vkey(v):
+                    a = dict(x, detail="(only after the preceding calls of the reverse pass) " + str(x.get("detail")))
+                    break
+        for j in mod.jobs(v.get("_tier", "quick"), int(v.get("_seed", 0))) if jname != "__history__" else []:
             if j.name == jname:
                 r = j.func(j.params, lo, hi)
                 want = vkey(v)
